@@ -6,7 +6,7 @@ D=/verif/seeded/$ID
 cd /repo && git diff --quiet || { echo "/repo is dirty; refusing"; exit 3; }
 git -C /repo apply "$D/patch.diff" || { echo "patch does not apply"; exit 3; }
 cd /verif
-./check $PROP --tier $TIER > "$D/check_$PROP.$TIER.out" 2>&1
+VERIF_EVIDENCE_DIR=/var/tmp/seed-evidence ./check $PROP --tier $TIER > "$D/check_$PROP.$TIER.out" 2>&1
 RC=$?
 git -C /repo checkout -- .
 echo "seed $ID property $PROP tier $TIER: exit $RC"
